@@ -16,6 +16,10 @@ CONDS = {"NO_ERROR": 0, "POSITIVE_ACK_LIMIT_REACHED": 1, "FILESTORE_REJECTION": 
 DECLARABLE = ["POSITIVE_ACK_LIMIT_REACHED", "FILESTORE_REJECTION", "FILE_CHECKSUM_FAILURE",
               "FILE_SIZE_ERROR", "NAK_LIMIT_REACHED", "CHECK_LIMIT_REACHED", "CANCEL_REQUEST_RECEIVED"]
 FH = ["CANCEL", "IGNORE", "ABANDON", "SUSPEND"]
+# conditions the handlers never declare: four are in the fault handler table all the same, two are not
+# (`set_handler` refuses those with ValueError)
+OTHER_CONDS = ["KEEP_ALIVE_LIMIT_REACHED", "INVALID_TRANSMISSION_MODE", "INACTIVITY_DETECTED",
+               "UNSUPPORTED_CHECKSUM_TYPE", "NO_ERROR", "SUSPEND_REQUEST_RECEIVED"]
 
 
 # ------------------------------------------------------------------ reference checksums (harness side)
@@ -256,7 +260,7 @@ def dest_session(rng: Rng, grid_only: bool = False, fs_kind: str = "mem", n_tx: 
     for t in range(n_tx):
         if reconf and t > 0 and rng.chance(reconf):
             for _ in range(rng.randrange(1, 3)):
-                s.do(f"sethandler D {rng.choice(DECLARABLE)} {rng.choice(FH)}")
+                s.do(f"sethandler D {rng.choice(DECLARABLE if rng.chance(0.8) else OTHER_CONDS)} {rng.choice(FH)}")
         feeder = DestFeeder(rng, c, seq, grid_only, honest, bad_dest)
         pending: list[str] = []
         do_serve = rng.chance(serve)
@@ -309,7 +313,7 @@ def source_session(rng: Rng, fs_kind: str = "mem", cfg: Cfg | None = None, well_
         if reconf and t > 0 and rng.chance(reconf):
             # the user reconfigures the fault handler table between two transactions
             for _ in range(rng.randrange(1, 3)):
-                s.do(f"sethandler S {rng.choice(SRC_CONDS)} {rng.choice(FH)}")
+                s.do(f"sethandler S {rng.choice(SRC_CONDS if rng.chance(0.8) else OTHER_CONDS)} {rng.choice(FH)}")
         if vary_file and t > 0 and not c.metadata_only and rng.chance(vary_file):
             # the user rewrites the source file between two transactions: other content of the same length
             # (mostly), or of another length
